@@ -1,0 +1,204 @@
+//! Verification facade (cargo feature `verif-hooks`, add-only) for the BMP
+//! connection handler: builds the objects of one accepted BMP connection the
+//! way `BmpTcpInRunner::run` (unit.rs accept loop) does, lets an external
+//! harness feed an arbitrary `AsyncRead` to the real
+//! `RouterHandler::read_from_router`, and captures every `Update` that
+//! leaves the gate through a real `Link` in direct-update mode.
+//! Nothing here alters behaviour.
+
+use std::net::SocketAddr;
+use std::sync::{Arc, Mutex as StdMutex};
+
+use arc_swap::ArcSwap;
+use async_trait::async_trait;
+use tokio::io::AsyncRead;
+use tokio::sync::Mutex;
+
+use crate::comms::{AnyDirectUpdate, DirectUpdate, Gate, GateAgent, Link};
+use crate::common::frim::FrimMap;
+use crate::ingress::{self, IngressId, IngressInfo};
+use crate::metrics::{OutputFormat, Source, Target};
+use crate::payload::Update;
+
+use super::metrics::BmpTcpInMetrics;
+use super::router_handler::RouterHandler;
+use super::state_machine::{BmpState, BmpStateMachineMetrics};
+use super::status_reporter::BmpTcpInStatusReporter;
+use super::types::RouterInfo;
+use super::unit::BmpTcpIn;
+use super::util::format_source_id;
+
+#[derive(Debug, Default)]
+struct Capture(StdMutex<Vec<Update>>);
+
+#[async_trait]
+impl DirectUpdate for Capture {
+    async fn direct_update(&self, update: Update) {
+        self.0.lock().unwrap().push(update);
+    }
+}
+impl AnyDirectUpdate for Capture {}
+
+type SharedState = Arc<Mutex<Option<BmpState>>>;
+
+pub struct StreamFixture {
+    pub register: Arc<ingress::Register>,
+    pub unit_id: IngressId,
+    pub router_id: IngressId,
+    pub router_addr: SocketAddr,
+    agent: GateAgent,
+    handler: Option<RouterHandler>,
+    capture: Arc<Capture>,
+    _link: Link,
+    state: SharedState,
+    conn_metrics: Arc<BmpTcpInMetrics>,
+    bmp_metrics: Arc<BmpStateMachineMetrics>,
+    pub router_states: Arc<FrimMap<IngressId, SharedState>>,
+    pub router_info: Arc<FrimMap<IngressId, Arc<RouterInfo>>>,
+}
+
+impl StreamFixture {
+    /// Must be called inside a multi-thread tokio runtime (gates spawn
+    /// tasks and a cloned gate detaches with `block_in_place`).
+    pub async fn new(router_addr: SocketAddr) -> Self {
+        let (gate, mut agent) = Gate::new(8);
+        let capture = Arc::new(Capture::default());
+        let mut link = agent.create_link();
+        link.set_direct_update_target(capture.clone());
+
+        let conn_metrics = Arc::new(BmpTcpInMetrics::new(&gate));
+        let bmp_metrics = Arc::new(BmpStateMachineMetrics::new());
+        let status_reporter = Arc::new(BmpTcpInStatusReporter::new(
+            "verif",
+            conn_metrics.clone(),
+        ));
+        let register = Arc::new(ingress::Register::new());
+        let router_id_template = Arc::new(ArcSwap::from_pointee(
+            BmpTcpIn::default_router_id_template(),
+        ));
+
+        // BmpTcpIn::run: the unit registers itself ...
+        let unit_id = register.register();
+        // ... and the accept loop finds or registers the router
+        let query = IngressInfo::new()
+            .with_parent(unit_id)
+            .with_remote_addr(router_addr.ip());
+        let router_id = match register.find_existing_bmp_router(&query) {
+            Some((id, _)) => id,
+            None => {
+                let id = register.register();
+                register.update_info(id, query);
+                id
+            }
+        };
+
+        // router_connected()
+        let router_name = Arc::new(format_source_id(
+            &router_id_template.load(),
+            "unknown",
+            router_id,
+        ));
+        let router_info: Arc<FrimMap<IngressId, Arc<RouterInfo>>> =
+            Arc::new(FrimMap::default());
+        router_info.insert(router_id, Arc::new(RouterInfo::new()));
+        let child_reporter = Arc::new(BmpTcpInStatusReporter::new(
+            format!("verif.router[{}]", router_id),
+            conn_metrics.clone(),
+        ));
+        let state: SharedState = Arc::new(Mutex::new(Some(BmpState::new(
+            router_id,
+            router_name,
+            child_reporter,
+            bmp_metrics.clone(),
+            register.clone(),
+        ))));
+        let router_states: Arc<FrimMap<IngressId, SharedState>> =
+            Arc::new(FrimMap::default());
+        router_states.insert(router_id, state.clone());
+
+        let handler = RouterHandler::new(
+            gate.clone(),
+            None,
+            router_id_template,
+            Default::default(),
+            status_reporter,
+            state.clone(),
+            Default::default(),
+            Default::default(),
+            None,
+            bmp_metrics.clone(),
+        );
+
+        // "Run" the unit's gate like the unit does, until it is terminated.
+        crate::tokio::spawn("verif-gate", async move {
+            while gate.process().await.is_ok() {}
+        });
+        link.connect(false).await.expect("gate is running");
+
+        Self {
+            register,
+            unit_id,
+            router_id,
+            router_addr,
+            agent,
+            handler: Some(handler),
+            capture,
+            _link: link,
+            state,
+            conn_metrics,
+            bmp_metrics,
+            router_states,
+            router_info,
+        }
+    }
+
+    /// `RouterHandler::run` minus the TCP split.
+    pub async fn run<T: AsyncRead + Unpin>(&self, rx: T) {
+        self.handler
+            .as_ref()
+            .unwrap()
+            .verif_run_stream(
+                rx,
+                self.router_addr,
+                self.router_id,
+                self.register.clone(),
+            )
+            .await
+    }
+
+    /// What the manager does at unit shutdown: `GateAgent::terminate`.
+    pub async fn terminate(&self) {
+        self.agent.terminate().await
+    }
+
+    /// Every update that left the gate so far, in order.
+    pub fn updates(&self) -> Vec<Update> {
+        self.capture.0.lock().unwrap().clone()
+    }
+
+    /// 0 initiating, 1 dumping, 2 updating, 3 terminated, 4 aborted,
+    /// 9 = the state machine is gone (taken and never put back).
+    pub async fn phase(&self) -> u8 {
+        match self.state.lock().await.as_ref() {
+            Some(BmpState::Initiating(_)) => 0,
+            Some(BmpState::Dumping(_)) => 1,
+            Some(BmpState::Updating(_)) => 2,
+            Some(BmpState::Terminated(_)) => 3,
+            Some(BmpState::_Aborted(..)) => 4,
+            None => 9,
+        }
+    }
+
+    /// Both metric sources of the unit as /metrics renders them.
+    pub fn metrics_prometheus(&self) -> String {
+        let mut target = Target::new(OutputFormat::Prometheus);
+        self.conn_metrics.append("verif", &mut target);
+        self.bmp_metrics.append("verif", &mut target);
+        target.into_string()
+    }
+
+    /// Drops the handler (and with it its cloned gate) inside the runtime.
+    pub fn close(&mut self) {
+        self.handler.take();
+    }
+}
